@@ -1,0 +1,19 @@
+//go:build verif
+
+package multiterm
+
+// Hooks for the external verification harness (/verif). Compiled only with
+// the build tag "verif"; add-only, nothing here is referenced by rare itself.
+
+// VerifSetTermSize overrides the terminal size that init() captured from the
+// real TTY (or defaulted to 24x80 when stdout is not a terminal). Together
+// with the exported AutoTrim switch this puts the package in the state it has
+// when rare runs on a terminal of the given size.
+func VerifSetTermSize(rows, cols int) {
+	computedRows, computedCols = rows, cols
+}
+
+// VerifTermSize returns the size currently in effect (to restore it).
+func VerifTermSize() (rows, cols int) {
+	return computedRows, computedCols
+}
